@@ -487,3 +487,116 @@ func init() {
 	register(&Scenario{Prop: "C02", Name: "c02/reused-calls-sharing-a-done-channel", Quick: []Bound{{0, 0}, {1, 0}}, Thorough: []Bound{{2, 0}}, Body: c02ReusedSharedDone, BudgetQ: 15})
 	register(&Scenario{Prop: "C02", Name: "c02/transport-reused-call", Quick: []Bound{{0, 0}, {1, 0}}, Thorough: []Bound{{2, 0}}, Body: c02TransportReusedCall, MaxSteps: 200000, BudgetQ: 15})
 }
+
+// a burst of thousands of calls outstanding at the same time on one connection (the peer's answers are
+// held back, then arrive together), and a call that is issued while the reader is handing over the LAST
+// answer of the burst (the user's body codec is slow in that Unmarshal: the new call is registered right
+// there).  Every call of the burst and the late one are completed exactly once with their own replies.
+type parkCodec struct {
+	inner rpc.Codec
+	st    *parkState
+}
+type parkState struct {
+	lastTag        byte
+	inLast, goOn   bool
+	unmarshalCalls int
+}
+
+func (c parkCodec) Marshal(buf []byte, v interface{}) ([]byte, error) { return c.inner.Marshal(buf, v) }
+func (c parkCodec) Unmarshal(data []byte, v interface{}) error {
+	c.st.unmarshalCalls++
+	if len(data) > 0 && c.st.lastTag != 0 && data[len(data)-1] == c.st.lastTag^0x5A && !c.st.inLast { // (replies are the reversed, masked arguments)
+		c.st.inLast = true
+		vs.Block("user codec: slow Unmarshal of the last reply", func() bool { return c.st.goOn })
+	}
+	return c.inner.Unmarshal(data, v)
+}
+
+func c02Burst(x *X) {
+	n := []int{300, 4200}[x.Choose(2)]
+	dio := x.Choose(2) == 1
+	st := &parkState{}
+	so := srvOpts{bufSize: 64}
+	w := newWorld()
+	srv := newServer(w, so)
+	cl, sv := NewPipe()
+	serveCodec(srv, sv, so)
+	conn := newConn(cl, "", 64, func() rpc.Codec { return parkCodec{&rpc.BYTESCodec{}, st} })
+	if dio {
+		conn.SetDirectIO(true)
+	}
+	warm := newUcall(1, 0, 20, formCall)
+	warm.issue(conn)
+	cl.p.stall[1] = true // the peer's answers are held back
+	done := make(chan *rpc.Call, n+8)
+	calls := make([]*ucall, n)
+	for i := range calls {
+		tag := byte(2 + i%100)
+		if i == n-1 {
+			tag = 0x7E
+		}
+		c := newUcall(tag, 0, 6+i%20, formGo)
+		c.args[1] = 0
+		calls[i] = c
+		c.call = conn.Go(c.method, &c.args, &c.reply, done)
+	}
+	vs.Quiesce()
+	if k := conn.NumCalls(); k != uint64(n) {
+		x.Fail("C02/outstanding-count/burst", "%d calls were issued and none answered; NumCalls reports %d", n, k)
+	}
+	st.lastTag = 0x7E
+	late := newUcall(0x7F, 0, 24, formGo)
+	lateDone := make(chan *rpc.Call, 1)
+	vs.GoNamed("late-caller", func() {
+		vs.Block("until the reader hands over the last answer", func() bool { return st.inLast })
+		late.call = conn.Go(late.method, &late.args, &late.reply, lateDone)
+		st.goOn = true
+	})
+	sv.Unstall()
+	vs.Quiesce()
+	if !st.inLast {
+		st.goOn = true
+		x.Fail("C02/setup/burst", "the body codec never saw the last reply (%d Unmarshal calls)", st.unmarshalCalls)
+	}
+	got := map[*rpc.Call]int{}
+	for len(done) > 0 {
+		got[<-done]++
+	}
+	for i, c := range calls {
+		switch k := got[c.call]; {
+		case k == 0:
+			x.Fail("C02/never-completed/burst", "call %d of a burst of %d was never completed", i, n)
+		case k > 1:
+			x.Fail("C02/completed-twice/burst", "call %d of a burst of %d was completed %d times", i, n, k)
+		case c.call.Error != nil || !eqBytes(c.reply, c.want()):
+			x.Fail("C02/wrong-outcome/burst", "call %d of a burst of %d: err=%v", i, n, c.call.Error)
+		}
+		if got[c.call] != 1 {
+			break
+		}
+	}
+	if len(lateDone) == 0 {
+		x.Fail("C02/never-completed/after-burst", "a call issued while the reader was handing over the last answer of a burst of %d (inside the user's Unmarshal, direct I/O %v) has not been completed although the server answered it; NumCalls=%d", n, dio, conn.NumCalls())
+	} else if <-lateDone; late.call.Error != nil || !eqBytes(late.reply, late.want()) {
+		x.Fail("C02/wrong-outcome/after-burst", "the call issued right after a burst of %d: err=%v", n, late.call.Error)
+	}
+	after := newUcall(0x11, fGate, 20, formGo)
+	afterDone := make(chan *rpc.Call, 1)
+	after.call = conn.Go(after.method, &after.args, &after.reply, afterDone)
+	vs.Quiesce()
+	conn.Close()
+	vs.Quiesce()
+	if len(afterDone) != 1 || after.call.Error != rpc.ErrShutdown {
+		x.Fail("C02/not-failed-by-close/after-burst", "a call outstanding when the connection was closed (after a burst of %d) was completed %d times, error %v", n, len(afterDone), after.call.Error)
+	}
+	if len(lateDone) > 0 || len(done) > 0 {
+		x.Fail("C02/completed-twice/burst", "Close completed calls again: %d + %d", len(lateDone), len(done))
+	}
+	x.Outcome("n=%d dio=%v unmarshal=%d", n, dio, st.unmarshalCalls)
+	w.open(0x11)
+	vs.Quiesce()
+}
+
+func init() {
+	register(&Scenario{Prop: "C02", Name: "c02/burst-then-call-inside-last-unmarshal", Quick: []Bound{{0, 0}}, Thorough: []Bound{{0, 0}}, Body: c02Burst, MaxSteps: 5000000, BudgetQ: 60, BudgetT: 200})
+}
